@@ -151,9 +151,11 @@ def check(R, F):
                 # known to be None, and nothing else is returned
                 from qv import origins
                 from qv.rulelib import failed_before
+                from qv.rulelib import _origin_of_failure
                 lv = origins.trace(fn, 0, [('down', 'Some')])
                 look = [lf[2] for lf in lv if lf[0] == 'call']
-                ok = ok and len(lv) == 1 and len(look) == 1 and failed_before(fn, stc[0][0], lambda t_: t_ is look[0])
+                src = _origin_of_failure(fn, look[0]['dest']['l']) if len(look) == 1 and not look[0]['dest']['p'] else None
+                ok = ok and len(lv) == 1 and len(look) == 1 and failed_before(fn, stc[0][0], lambda t_: t_ is look[0] or (src is not None and t_ is src))
         R.require(ok, 'tsig-table', name + '|' + what, fn.where(), '%s -> NOTAUTH, BADKEY(17), unsigned, None' % what, '%s does not answer NOTAUTH/BADKEY unsigned and return None' % what)
     R.floor('tsig-table', 10)
 
@@ -212,6 +214,12 @@ def check(R, F):
         ok = ok and len(flt) == 1 and 'HashMap::get' in paths.show_operand(fk, flt[0][1]['args'][0]).replace('<K, V, S>', '')
         alg = any('Algorithm as std::cmp::PartialEq' in callee_name(t) for c in F.closures_of(fk.gpath) for b, t in c.calls())
         gated = len(somes) == 1 and any(re.match(r'^discr\(Option::filter\(.*\)\) in \[1\]$', x) for x in paths.dom_guards(fk, somes[0]))
+        if not somes and len(flt) == 1:
+            # the function hands back (a projection of) the filtered lookup itself: Some only if the filter said Some
+            from qv import origins as _or
+            from qv.rulelib import _origin_of_failure
+            lv = _or.trace(fk, 0, [('down', 'Some')])
+            gated = len(lv) == 1 and lv[0][0] == 'call' and not lv[0][2]['dest']['p'] and (lv[0][2] is flt[0][1] or _origin_of_failure(fk, lv[0][2]['dest']['l']) is flt[0][1])
     else:
         # the same test written inline (a match guard, an `if`): Some(key) only under `get(name)` being Some AND the
         # stored algorithm equal to the requested one
